@@ -186,7 +186,7 @@ def run(case, ctx):
         except BaseException as e:  # noqa: BLE001
             if behave._is_ctl(e):
                 raise
-            ctx.skip("import_failed")
+            ctx.violation("package.imports", {"exc": type(e).__name__}, repr(e)[:300])   # the documents are in the domain: a package that cannot be imported decides the property negatively
             return
         with pkg:
             for sv in case["serves"]:
